@@ -149,7 +149,13 @@ package daemon
 //@ # a status query carrying another sandbox id than the recorded one returns no allocation
 //@ guard store GetInfoReply.NetConfs in GetIPInfo: len(value) == 0 || oldRes.ContainerID == nil || r.K8SPodInfraContainerId == *oldRes.ContainerID
 
-//@ for C09
+//@ for C09 C15
+
+//@ # ---- stored records handed to the GC and to the pool start-up always name a pod (records without pod info are dropped) ----
+//@ func getPodResources
+//@   modifies nothing
+//@   ensures forall i int :: 0 <= i && i < len(result) ==> result[i].PodInfo != nil
+//@   loop 1 invariant forall i int :: 0 <= i && i < len(res) ==> res[i].PodInfo != nil
 
 //@ # ---- pod GC: collects exactly the pods whose absence the API server confirmed, under the exclusive service lock ----
 //@ ghost c09absent bool = false
@@ -159,6 +165,8 @@ package daemon
 
 //@ func networkService.gcPods
 //@   requires n != nil && n.k8s != nil && n.eniMgr != nil && n.resourceDB != nil
+//@   # no stored record and no pod-list entry makes the GC dereference nil
+//@   panics
 //@   at call RWMutex.Lock: ghost c09w = true
 //@   at call RWMutex.Unlock: ghost c09w = false
 //@   at call Kubernetes.PodExist: ghost c09absent = (!result0 && result1 == nil)
